@@ -96,7 +96,12 @@ func normField(v interface{}) interface{} {
 		}
 		return T{"list": out}
 	case m["nlv"] != nil:
-		l := asList(m["nlv"])
+		var l []interface{}
+		for _, e := range asList(m["nlv"]) {
+			if p := asList(e); len(p) == 2 && p[1] != "" {
+				l = append(l, e) // an entry with an empty text has nothing to say: unset and empty are the same
+			}
+		}
 		if len(l) == 0 {
 			return nil
 		}
@@ -257,6 +262,25 @@ func jsonRoundTrip(tr interface{}) (after interface{}, bytes []byte, viol string
 // dropEmpties removes empty (non-nil) lists and language-value lists from a decoded dump: unset and
 // empty are the same thing in the normal form.
 func dropEmpties(tr interface{}) interface{} { return normGob(tr) }
+
+// c01OracleCase: a value outside the domain of the models (a text entry with an empty text): judged by the
+// oracle only — what the neighbours of the silent property become
+func c01OracleCase(c *Ctx, tr interface{}, tag string) {
+	_, _, viol := jsonRoundTrip(tr)
+	c.Count(map[string]interface{}{"op": "jsonRoundTrip", "v": tr}, true)
+	c.Tag(tag)
+	if viol != "" {
+		cls := "C01/roundtrip"
+		if i := strings.Index(viol, "round trip differs at "); i >= 0 {
+			t := "?"
+			if m, ok := tr.(T); ok {
+				t, _ = m["t"].(string)
+			}
+			cls = "C01/" + t + "." + diffField(viol[i+len("round trip differs at "):])
+		}
+		c.Fail(cls, viol, map[string]interface{}{"op": "jsonRoundTrip", "v": tr})
+	}
+}
 
 func c01Case(c *Ctx, tr interface{}, tag string) {
 	after, _, viol := jsonRoundTrip(tr)
@@ -494,6 +518,16 @@ func init() {
 						"Context": T{"items": l, "ptr": false}, "URL": T{"items": l, "ptr": true}}}, "deep-corner/silent-members")
 				}
 			}
+		}
+		// a text property whose entries have nothing to write (empty text), inside a sub-record and on the object
+		// itself, next to properties that do: the neighbours survive
+		for _, texts := range [][]interface{}{{[]interface{}{"en", ""}}, {[]interface{}{"en", ""}, []interface{}{"fr", ""}}, {[]interface{}{"-", ""}}} {
+			c01OracleCase(c, T{"t": "Object", "ptr": true, "f": T{"ID": T{"s": "https://example.com/h"}, "Type": T{"s": "Note"},
+				"Source": T{"rec": T{"MediaType": T{"s": "text/markdown"}, "Content": T{"nlv": texts}}}}}, "deep-corner/silent-text")
+			c01OracleCase(c, T{"t": "Object", "ptr": true, "f": T{"ID": T{"s": "https://example.com/h"}, "Type": T{"s": "Note"},
+				"Name": T{"nlv": texts}, "Summary": T{"nlv": []interface{}{[]interface{}{"-", "kept"}}}}}, "deep-corner/silent-text")
+			c01OracleCase(c, T{"t": "Actor", "ptr": true, "f": T{"ID": T{"s": "https://example.com/a"}, "Type": T{"s": "Person"},
+				"PreferredUsername": T{"nlv": texts}, "Inbox": T{"iri": "https://example.com/a/inbox"}}}, "deep-corner/silent-text")
 		}
 		for n := 0; n < 3; n++ {
 			l := []interface{}{}
